@@ -108,7 +108,10 @@ def jsonBytes (s : Bytes) : Option Bytes :=
   | _ => none
 
 /-- `serde_json::to_string(&bytes)` : `[1,2,3]` -/
-def natDigits (n : Nat) : Bytes := (toString n).toList.map fun c => UInt8.ofNat c.toNat
+def natDigits (n : Nat) : Bytes :=
+  if n < 10 then [UInt8.ofNat (48 + n)]
+  else if n < 100 then [UInt8.ofNat (48 + n / 10), UInt8.ofNat (48 + n % 10)]
+  else [UInt8.ofNat (48 + n / 100), UInt8.ofNat (48 + n / 10 % 10), UInt8.ofNat (48 + n % 10)]
 def jsonOfBytes (b : Bytes) : Bytes :=
   let parts : List Bytes := b.map fun (x : UInt8) => natDigits x.toNat
   [91] ++ (parts.intersperse [44]).flatten ++ [93]
